@@ -164,7 +164,7 @@ static int32_t commit(struct jls_core_ts_s * self, int level, int mode) {
         struct jls_annotation_summary_s * summary = (struct jls_annotation_summary_s *) summary_header;
         p_end = (uint8_t *) &summary->entries[summary->header.entry_count];
         p_start = (uint8_t *) summary;
-        if (mode != COMMIT_MODE_CLOSE) {
+        if (summary_header_up) {
             struct jls_annotation_summary_s *summary_up = (struct jls_annotation_summary_s *) summary_header_up;
             summary_up->entries[summary_up->header.entry_count++] = summary->entries[0];
         }
@@ -172,7 +172,7 @@ static int32_t commit(struct jls_core_ts_s * self, int level, int mode) {
         struct jls_utc_summary_s * summary = (struct jls_utc_summary_s *) summary_header;
         p_end = (uint8_t *) &summary->entries[summary->header.entry_count];
         p_start = (uint8_t *) summary;
-        if (mode != COMMIT_MODE_CLOSE) {
+        if (summary_header_up) {
             struct jls_utc_summary_s *summary_up = (struct jls_utc_summary_s *) summary_header_up;
             summary_up->entries[summary_up->header.entry_count++] = summary->entries[0];
         }
